@@ -95,3 +95,45 @@ pub proof fn lemma_members_of_a_suffix(t0: Tokens, t1: Tokens, members: Seq<Memb
 	lemma_suffix_facts(t0, t1);
 	assert forall|i: int| 0 <= i < members.len() implies member_in(t0, #[trigger] members[i]) by { assert(member_in(t1, members[i])); }
 }
+
+// ---- function declarations -----------------------------------------------------------------------------------------------------------------
+pub open spec fn body_error_located(t0: Tokens, p: Poison) -> bool {
+	p is Error && (err_at(t0, p->Error_0) || p->Error_0 is UnexpectedSemicolonAfterIdentifier || semicolon_after_value(t0, p->Error_0))
+}
+pub open spec fn signature_at(t0: Tokens, given: Location, name: Identifier, parameters: Vec<Parameter>, lod: Location, lort: Location) -> bool {
+	&&& lod == given && name.location == first_loc(t0)
+	&&& forall|i: int| 0 <= i < parameters@.len() ==> parameter_in(t0, #[trigger] parameters@[i])
+	&&& forward(lort) && first_loc(t0).span.start <= lort.span.start && lort.span.end <= end_loc(t0).span.end
+}
+// a function (head): located by its keyword alone, named by its first token, parameters and return type inside the text (where no return
+// type is written the code takes the closing parenthesis: only `inside the text` is stated); a body that failed carries an error located in the lexed text
+pub open spec fn function_at(t0: Tokens, d: Declaration, given: Location) -> bool {
+	match d {
+		Declaration::Function { name, parameters, body, location_of_declaration, location_of_return_type, .. } =>
+			signature_at(t0, given, name, parameters, location_of_declaration, location_of_return_type)
+			&& (body is Err ==> body_error_located(t0, body->Err_0)),
+		Declaration::FunctionHead { name, parameters, location_of_declaration, location_of_return_type, .. } =>
+			signature_at(t0, given, name, parameters, location_of_declaration, location_of_return_type),
+		_ => false,
+	}
+}
+pub proof fn lemma_parameters_of_a_suffix(t0: Tokens, t1: Tokens, ps: Seq<Parameter>)
+	requires stream_wf(t0), stream_wf(t1), took(t0, t1, 0), forall|i: int| 0 <= i < ps.len() ==> parameter_in(t1, #[trigger] ps[i]),
+	ensures forall|i: int| 0 <= i < ps.len() ==> parameter_in(t0, #[trigger] ps[i]),
+{
+	lemma_suffix_facts(t0, t1);
+	assert forall|i: int| 0 <= i < ps.len() implies parameter_in(t0, #[trigger] ps[i]) by { assert(parameter_in(t1, ps[i])); }
+}
+pub proof fn lemma_return_type_inside(t0: Tokens, t2: Tokens, t3: Tokens, l: Location)
+	requires stream_wf(t0), stream_wf(t2), stream_wf(t3), took(t0, t2, 1), took(t2, t3, 1), return_type_at(t2, t3, l),
+	ensures first_loc(t0).span.start <= l.span.start && l.span.end <= end_loc(t0).span.end,
+{
+	let k = choose|k: int| 1 <= k < taken(t2, t3) && l.span.start == (#[trigger] t2.tokens@[k]).location.span.start && same_line(l, t2.tokens@[k].location);
+	let d = taken(t0, t2);
+	assert(t2.tokens@[k] == t0.tokens@[k + d]);
+	let j = taken(t2, t3);
+	assert(t3.last_location == t2.tokens@[j - 1].location);
+	assert(t2.tokens@[j - 1] == t0.tokens@[j - 1 + d]);
+	assert(t0.tokens@[0].location.span.start <= t0.tokens@[k + d].location.span.start);
+	assert(t0.tokens@[j - 1 + d].location.span.end <= t0.tokens@[t0.tokens@.len() - 1].location.span.end);
+}
